@@ -138,10 +138,10 @@ func (s *SignerGen) bestForKey(
 	expiry := minTime(chain[0].NotAfter, trcs[0].TRC.Validity.NotAfter)
 	if inGrace {
 		// In the grace period the expiry is the minimum of the chain expiry,
-		// the grace period defined in the new TRC, and the expiry of the
-		// previous TRC.
+		// the expiry of the new TRC, the grace period defined in the new TRC,
+		// and the expiry of the previous TRC.
 		expiry = minTime(
-			minTime(chain[0].NotAfter, trcs[0].TRC.GracePeriodEnd()),
+			minTime(expiry, trcs[0].TRC.GracePeriodEnd()),
 			trcs[1].TRC.Validity.NotAfter,
 		)
 	}
